@@ -47,12 +47,13 @@ Lemma drain_request ri c a :
   drain FUEL [IRequest ri] c a
   = Some (fin c,
           match a_app a with
-          | Ret st => EDispatch :: EWrite st (resp_version (rver ri)) (negb (keepalive ri)) (is_head ri)
-                        :: (if negb (keepalive ri) then [EClose] else [])
+          | Ret (st, viaerr) =>
+              EDispatch :: EWrite st (resp_version (rver ri)) (viaerr || negb (keepalive ri)) (is_head ri)
+                        :: (if viaerr || negb (keepalive ri) then [EClose] else [])
           | Raise => [EDispatch; EWrite 500 (resp_version (rver ri)) true (is_head ri); EClose]
           end, []).
 Proof.
-  unfold FUEL. destruct (a_app a) eqn:A; cbn -[finish]; rewrite A; cbn -[finish];
+  unfold FUEL. destruct (a_app a) as [|[st [|]]] eqn:A; cbn -[finish]; rewrite A; cbn -[finish];
     destruct (is_head ri); rewrite finish_total; try destruct (keepalive ri); reflexivity.
 Qed.
 
@@ -137,7 +138,7 @@ Proof.
   - rewrite drain_close. constructor.
   - rewrite drain_httperror. cbn. apply sh_reject; [|apply resp_version_ok].
     cbn in *. intuition.
-  - rewrite drain_request. cbn. destruct (a_app a); [apply (sh_request 500 _ true)|apply sh_request]; apply resp_version_ok.
+  - rewrite drain_request. cbn. destruct (a_app a) as [|[st viaerr]]; [apply (sh_request 500 _ true)|apply sh_request]; apply resp_version_ok.
 Qed.
 
 (* corollaries in the words of the property *)
@@ -576,7 +577,7 @@ Proof.
   - rewrite drain_nil. constructor.
   - rewrite drain_close. constructor.
   - rewrite drain_httperror. cbn. apply sh_reject; [|apply resp_version_ok]. cbn in *. intuition.
-  - rewrite drain_request. cbn. destruct (a_app a); [apply (sh_request 500 _ true)|apply sh_request]; apply resp_version_ok.
+  - rewrite drain_request. cbn. destruct (a_app a) as [|[st viaerr]]; [apply (sh_request 500 _ true)|apply sh_request]; apply resp_version_ok.
 Qed.
 
 (* the cascade leaves the connection as it is or releases the pair *)
@@ -676,4 +677,57 @@ Theorem burst_never_crash secure h s effs :
 Proof.
   intros I. pose proof (burst_outcome secure h) as F. rewrite Forall_forall in F. specialize (F _ I). cbn in F.
   destruct (shape_never_crash _ F) as [A B]. repeat split; auto. now apply shape_one.
+Qed.
+
+(* ================= a connection that is left open is left clean ================= *)
+
+Lemma body_gate_request_buf c a f ri tags ri' :
+  hres_of (body_gate c a f ri tags) = HRet [IRequest ri'] -> buf (hconn_of (body_gate c a f ri tags)) = false.
+Proof.
+  unfold body_gate, hres_of, hconn_of, reject.
+  destruct (a_clen a) as [|n]; [discriminate|].
+  destruct ((negb (n =? 0)%Z || te_chunked ri) && negb (mc f)); [discriminate|].
+  destruct (n <? 0)%Z; [destruct (del_buf c); discriminate|].
+  destruct (negb (is10 (rver ri)) && negb (has_host ri)); [destruct (del_buf c); discriminate|].
+  destruct (host_ctl ri); [destruct (del_buf c); discriminate|].
+  destruct (a_path a) as [|[|]]; [discriminate| |discriminate].
+  unfold del_buf. destruct (buf c); [|discriminate]. cbn. reflexivity.
+Qed.
+
+Lemma after_exec_request_buf c a tags ri :
+  hres_of (after_exec c a tags) = HRet [IRequest ri] -> buf (hconn_of (after_exec c a tags)) = false.
+Proof.
+  unfold after_exec.
+  destruct (a_exec a) as [|f]; [discriminate|].
+  destruct (negb (hc f)).
+  - destruct (perrno f); [|discriminate]. destruct (a_errreq a) as [|[v0 h0]]; [discriminate|].
+    unfold reject, hres_of. destruct (del_buf c); discriminate.
+  - unfold headers_done. destruct (cli c).
+    + apply body_gate_request_buf.
+    + destruct (a_req a) as [|r1]; [discriminate|]. destruct (negb (fst (rver r1) =? 1)); [discriminate|].
+      apply body_gate_request_buf.
+Qed.
+
+(* the only answers that do not close are answers to dispatched requests; after them neither table holds the
+   socket: the next message on the connection meets a fresh parser and builds its own request *)
+Theorem open_means_clean secure c a st v hd :
+  In (EWrite st v false hd) (effs_of (read_conn secure c a)) ->
+  In EDispatch (effs_of (read_conn secure c a)) /\ conn_of (read_conn secure c a) = empty_conn.
+Proof.
+  unfold read_conn. pose proof (on_read_ok secure c a) as H.
+  destruct (on_read secure c a) as [[c1 h] tags] eqn:E. unfold hres_of in H. cbn [fst snd] in H.
+  inversion H; subst.
+  - rewrite drain_exc. destruct (a_excreq a); cbn; intros F; inl F.
+  - rewrite drain_nil. intros [].
+  - rewrite drain_close. intros F. inl F.
+  - rewrite drain_httperror. cbn. intros F. inl F.
+  - rewrite drain_request. cbn [effs_of conn_of fst snd]. intros F. split.
+    + destruct (a_app a) as [|[s0 ve]]; now left.
+    + assert (B : buf c1 = false).
+      { unfold on_read in E. destruct (buf c) eqn:Bc.
+        - pose proof (after_exec_request_buf c a [] ri) as R. unfold hres_of, hconn_of in R. rewrite E in R. now apply R.
+        - destruct (a_ssl a) as [|b]; [discriminate|]. destruct (b && negb secure); [discriminate|].
+          pose proof (after_exec_request_buf (set_buf c true) a [TSsl] ri) as R. unfold hres_of, hconn_of in R.
+          rewrite E in R. now apply R. }
+      destruct c1 as [b1 cl1]. cbn in B. subst b1. unfold fin, empty_conn. destruct cl1; reflexivity.
 Qed.
